@@ -97,14 +97,14 @@ class Labels:
         if P is None:
             return None
         lx, lp = self.of(X), self.of(P)
-        pathish = {"raw-path", "norm-path", "entry-names"}
+        pathish = {"raw-path", "norm-path", "abs-path", "entry-names"}
         out = {x for x in (lx | lp) if x not in pathish}
-        kx, kp_ = lx & {"raw-path", "norm-path"}, lp & {"raw-path", "norm-path"}
+        kx, kp_ = lx & {"raw-path", "norm-path", "abs-path"}, lp & {"raw-path", "norm-path", "abs-path"}
         if kx and kx == kp_ and len(kx) == 1:
             out.add("rel")
             return out
         # the listing and the root are spelled differently: the number of components dropped is that of the other spelling
-        return out | kx | kp_ | {"raw-path"}
+        return (out | kx | kp_ | {"raw-path"}) - {"abs-path"}
 
     def _args(self, t):
         out = set()
@@ -149,13 +149,13 @@ class Labels:
                 return {"enum-order", "entry-names"}
             args = self._args(t)
             if d in ("os.path.abspath", "os.path.realpath"):
-                return {("norm-path" if a == "raw-path" else a) for a in args}
+                return {("norm-path" if a in ("raw-path", "abs-path") else a) for a in args}
             if d == "os.path.basename":
                 out = set()
                 for a in args:
                     if a == "norm-path":
                         out.add("name")
-                    elif a == "raw-path":
+                    elif a in ("raw-path", "abs-path"):
                         out.add("raw-name")
                     else:
                         out.add(a)
@@ -163,6 +163,8 @@ class Labels:
             if d == "os.path.relpath":
                 a0 = self.of(t[2][0]) if t[2] else set()
                 a1 = self.of(t[2][1]) if len(t[2]) > 1 else {"cwd"}
+                a0 = {("raw-path" if x == "abs-path" else x) for x in a0}
+                a1 = {("raw-path" if x == "abs-path" else x) for x in a1}
                 pathish = {"raw-path", "norm-path", "entry-names"}
                 out = {x for x in (a0 | a1) if x not in pathish}
                 if "cwd" in a1:
@@ -204,15 +206,16 @@ class Labels:
             if name in ("is_file", "is_dir", "exists", "startswith", "endswith", "isdigit"):
                 return set()
             if name == "resolve":
-                return {("norm-path" if a == "raw-path" else a) for a in recv}
+                return {("norm-path" if a in ("raw-path", "abs-path") else a) for a in recv}
             if name == "absolute":
-                # Path.absolute() prefixes the working directory but keeps '..' components: still the caller's spelling
-                return recv
+                # Path.absolute() prefixes the working directory but keeps '..' components: a third spelling - as long as the
+                # one the caller gave (minus its root), not normalised
+                return {("abs-path" if a == "raw-path" else a) for a in recv}
             return recv | args
         if k == "attr":
             base = self.of(t[1])
             if t[2] == "name":
-                return {("name" if a == "norm-path" else "raw-name" if a == "raw-path" else a) for a in base}
+                return {("name" if a == "norm-path" else "raw-name" if a in ("raw-path", "abs-path") else a) for a in base}
             if t[2] in ("st_size", "st_mtime"):
                 return {"fs-content"}
             return base
@@ -410,6 +413,7 @@ def isfile_guarded(ctx, fn, node):
 
 FORBIDDEN_AT_INFO = {"clock": "the clock", "cwd": "the current working directory", "random": "a random source", "environment": "the process environment",
                      "raw-path": "the content path as spelled by the caller", "norm-path": "the absolute location of the payload",
+                     "abs-path": "the content path as spelled by the caller (made absolute, '..' kept)",
                      "enum-order": "the operating system's directory enumeration order", "custom-order": "a non-default sort order"}
 
 
@@ -477,7 +481,7 @@ def run(ctx):
             for l in sorted(labs):
                 if l in ("clock", "random", "environment") and key != "creation date":
                     bad.append(FORBIDDEN_AT_INFO[l])
-                if l in ("cwd", "raw-path", "norm-path", "enum-order"):
+                if l in ("cwd", "raw-path", "norm-path", "abs-path", "enum-order"):
                     bad.append(FORBIDDEN_AT_INFO[l])
             if bad:
                 ctx.violated("C08.4", fn, "top-level %s depends on %s: two runs on equal input would differ in more than the creation date" % (where, "; ".join(bad)), node)
